@@ -283,6 +283,15 @@ def r8_argument_list_separators(ctx: Ctx) -> None:
     ctx.floor("argument_kinds", 1)
 
 
+def r9_application_scope_replay(ctx: Ctx) -> None:
+    """`labels defined in the body are local to one application`: the scope an application opens is entered and left again in every
+    pass - ScopeNode / PopScopeNode do in pc_after and in emit what the generator did, and the resolver hands out scopes in
+    creation order (shared with C08.R2)"""
+    from .c08 import r2_replay_agreement
+
+    r2_replay_agreement(ctx)
+
+
 def rb_binding_agreement(ctx: Ctx) -> None:
     from ..ownership import binding_agreement
 
@@ -303,4 +312,4 @@ def ru_names_bound(ctx: Ctx) -> None:
     names_rule(ctx)
 
 
-RULES = [r1_arguments_in_caller_scope, r2_positional_binding, r3_per_application_scope, r4_only_symbol_not_defined_defers, r5_failures_inside_expansions_surface, r6_enclosing_scopes_stay_reachable, r7_no_capacity_limit_on_scope_log, r8_argument_list_separators, rb_binding_agreement, rm_no_process_lifetime_results, ru_names_bound]
+RULES = [r1_arguments_in_caller_scope, r2_positional_binding, r3_per_application_scope, r4_only_symbol_not_defined_defers, r5_failures_inside_expansions_surface, r6_enclosing_scopes_stay_reachable, r7_no_capacity_limit_on_scope_log, r8_argument_list_separators, r9_application_scope_replay, rb_binding_agreement, rm_no_process_lifetime_results, ru_names_bound]
